@@ -99,9 +99,7 @@ def run_tlc(module, cfg_text, files=(), extra_dir=None, workers=None, timeout=60
         cmd += list(args)
         cmd.append(module + ".tla")
         e = dict(os.environ)
-        jopts = "-Xss256m"
-        if heap:
-            jopts += " -Xmx" + heap
+        jopts = "-Xss256m -Xmx" + (heap or "8g")
         e["JAVA_TOOL_OPTIONS"] = (e.get("JAVA_TOOL_OPTIONS", "") + " " + jopts).strip()
         if env:
             e.update({k: str(v) for k, v in env.items()})
